@@ -82,7 +82,10 @@ var extPreds = []struct {
 	}},
 }
 
-var extAttach = []string{"root-pkg", "root-lookup", "text/plain", "application/zip", "application/json", "text/xml", "image/png", "application/pdf", "prev-ext", "handle-1"}
+// "detached-result": Extend is called on a detection RESULT (the bare root a
+// detection of unknown bytes returns): results are detached copies, so the
+// call must leave the tree as it is.
+var extAttach = []string{"root-pkg", "root-lookup", "text/plain", "application/zip", "application/json", "text/xml", "image/png", "application/pdf", "prev-ext", "handle-1", "detached-result"}
 
 // extOp is one Extend call.
 type extOp struct {
@@ -195,6 +198,15 @@ func (t *treeModel) apply(op extOp) {
 	prevName := ""
 	if k > 0 {
 		prevName = t.exts[k-1].name
+	}
+	if extAttach[op.Attach] == "detached-result" {
+		res := mimetype.Detect([]byte("\x00\x01 no format claims these bytes"))
+		res.Extend(pred, name, ext, aliases...)
+		if t.hist != "" {
+			t.hist += " ; "
+		}
+		t.hist += op.String()
+		return // the model tree is unchanged
 	}
 	parentName, target, viaHandle := extTarget(op, prevName, t.handle1)
 	var modelParent *mnode
